@@ -162,6 +162,7 @@ def leapfrog_textbook(rep, mir, L, d, tkind):
         h, st = S.consistent_start(free=True); eps = sign * S.eps.v
         outs = S.leapfrog(S.m, h, direction); rep.paths += len(outs)
         oks = [(m, v) for (m, k, v) in outs if k == 'ret' and v.name == 'Ok']
+        rep.cover('C02.a leapfrog has a feasible Ok path whose outputs are compared (%s)' % tag, bool(oks))
         if any(k == 'panic' for (_, k, _) in outs) or not oks:
             rep.violated('C02.a leapfrog reaches Ok (%s)' % tag, 'leapfrog.reach', 'leapfrog panics or never returns Ok: %s' % [(k, getattr(v, 'name', v)) for (_, k, v) in outs]); continue
         for (m, v) in oks:
@@ -197,18 +198,19 @@ def leapfrog_textbook(rep, mir, L, d, tkind):
         S = Setup(mir, L, d, tkind, 'Euclidean'); A = S.A
         h, st = S.consistent_start(); eps = sign * S.eps.v
         outs = S.leapfrog(S.m, h, direction); rep.paths += len(outs)
-        p = S.JinvT(st['v']); g0 = st['g']
+        # momentum p is the free variable and v = F^T p (every v is of this form: F^-T F^T = id is obligation C02.d); keeps the queries free of divisions
+        p = [z3.Real('p0_%d' % i) for i in range(d)]; vdef = [st['v'][i] == S.JT(p)[i] for i in range(d)]; g0 = st['g']
         p_half = [p[i] + eps / 2 * g0[i] for i in range(d)]
         Minv_p = S.Jv(S.JT(p_half))
         x1 = [st['x'][i] + eps * Minv_p[i] for i in range(d)]
         g1 = S.G(x1); p1 = [p_half[i] + eps / 2 * g1[i] for i in range(d)]
         for (m, k, v) in outs:
             if k != 'ret' or v.name != 'Ok': continue
-            out = S.point(m, v.f[0]); pre = S.pre + m.pc; p1_code = S.JinvT(out['velocity'])
+            out = S.point(m, v.f[0]); pre = S.pre + m.pc + vdef; v1_ref = S.JT(p1)
             vp = _check(rep, 'C02.a original-space position = textbook x + eps M^-1 p_half, M^-1 = F F^T (%s)' % tag, 'textbook.position.%s' % tkind, pre + [z3.Or(*[out['untransformed_position'][i] != x1[i] for i in range(d)])], 'position deviates from the textbook leapfrog', timeout=60000)
             # the position equality just proved is handed to the momentum query as a lemma (it lets congruence identify grad(x') in both schemes without non-linear reasoning)
             lemma = [out['untransformed_position'][i] == x1[i] for i in range(d)] if vp == 'holds' else []
-            _check(rep, 'C02.a original-space momentum F^-T v\' = textbook p_half + eps/2 grad(x\') (%s)' % tag, 'textbook.momentum.%s' % tkind, pre + lemma + [z3.Or(*[p1_code[i] != p1[i] for i in range(d)])], 'momentum deviates from the textbook leapfrog', timeout=120000)
+            _check(rep, 'C02.a original-space momentum: v\' = F^T p\' with the textbook p\' = p_half + eps/2 grad(x\'), v = F^T p (%s)' % tag, 'textbook.momentum.%s' % tkind, pre + lemma + [z3.Or(*[out['velocity'][i] != v1_ref[i] for i in range(d)])], 'momentum deviates from the textbook leapfrog', timeout=120000)
         rep.absorb_vm(S.vm)
 
 def transformation(rep, mir, L, d, tkind):
@@ -318,6 +320,7 @@ def exact_normal_scheme(rep, mir, L, d, tkind):
         h, st = S.consistent_start(free=True); eps = sign * S.eps.v
         outs = S.leapfrog(S.m, h, direction); rep.paths += len(outs)
         oks = [(m, v) for (m, k, v) in outs if k == 'ret' and v.name == 'Ok']
+        rep.cover('C02.e2 ExactNormal leapfrog has a feasible Ok path whose outputs are compared (%s)' % tag, bool(oks))
         if any(k == 'panic' for (_, k, _) in outs) or not oks:
             rep.violated('C02.e2 ExactNormal leapfrog reaches Ok (%s)' % tag, 'exact_normal.reach', 'ExactNormal leapfrog panics or never returns Ok'); continue
         sin, cos = A.uf['sin'], A.uf['cos']
